@@ -394,7 +394,13 @@ theorem isDirty_spec (hR : 0 < R) : ∀ (fuel : Nat) (w : World) (cache : List N
           rcases hmx hle with h | h
           · exact h hfc
           · exact hnV h.1
-        obtain ⟨st, iv⟩ := unfailWrite (seen := seen) hinv f r ch old hsnap hf hc hck hst hne hs hp2
+        have hmiss : existsF w f = false := by
+          have h := hcond.1
+          simp only [readStamp, existsF] at h ⊢
+          cases hfs : w.fs f with
+          | none => rfl
+          | some n => rw [hfs] at h; cases h
+        obtain ⟨st, iv⟩ := unfailWrite (seen := seen) hinv f r ch old hsnap hf hc hck hst hne hmiss hs hp2
         refine ⟨iv, st, (fun h => absurd h hdr.1), (fun hs' _ => absurd hs'.1 hnV), ?_, hdr.2⟩
         intro _ _ _ _
         rintro ⟨h0, _⟩
